@@ -151,7 +151,27 @@ def helper(cfg, crate, rep):
         subject = yc.args[0]
         via = calls_of(subject)
         rts = roots(subject)
-        normal = any(v.endswith("OffsetDateTime::to_offset") for v in via) and any(r.endswith("UtcOffset::UTC") for r in rts)
+        # every alternative of the tested value is normalised -- except alternatives taken only when the offset *is* UTC
+        # (`offset() == UtcOffset::UTC`, `offset().is_utc()`, `whole_seconds() == 0`; whole hours / minutes are not that)
+        from interp import flatten_phi
+        import re as _re3
+        def _is_utc_atom(a):
+            t_ = F.show_atom(a)
+            if "offset" not in t_.lower():
+                return False
+            return (a[0] == "eq" and ("UtcOffset::UTC" in t_ or (_re3.search(r"whole_seconds\(", t_) and str(a[2]) == "0"))) or (a[0] in ("true", "opaque") and "is_utc" in t_)
+        def _alt_ok(c_, x_):
+            if any(v.endswith("OffsetDateTime::to_offset") for v in calls_of(x_)) and any(r.endswith("UtcOffset::UTC") for r in roots(x_)):
+                return True
+            if c_ is True or c_ is False:
+                return c_ is False
+            ats_ = F.atoms(c_)
+            us_ = [a for a in ats_ if _is_utc_atom(a)]
+            try:
+                return any(all(asg[u] for asg in F.assignments(list(ats_)) if F.evalf(c_, asg)) for u in us_)
+            except ValueError:
+                return False
+        normal = all(_alt_ok(c_, x_) for c_, x_ in flatten_phi(subject))
         rep.ob("C09.utc", key + "|decision-on-utc-value", normal,
                "the year that selects UTCTime/GeneralizedTime must be the UTC year: the value is not normalised with to_offset(UtcOffset::UTC) before `.year()`, so the form (and for years 2049/2050 or 1949/1950 a panic in yasna) depends on the offset the caller used",
                expected="dt.to_offset(UtcOffset::UTC).year()", found=core(subject).r(), sp=utc[0][2].get("sp"))
